@@ -2,17 +2,16 @@
 // MatrixSparse::multiplyRow / multiplyColumn / divideRow / divideColumn (src/Matrix/MatrixSparse.cpp), which go
 // through cs_matvecR / cs_matvecL (src/Matrix/LinkMatrixSparse.cpp: cs_duplicate = cs_add(A, A, 1, 0), operate_Identify,
 // operate_Identity / operate_Inverse of src/Basic/Utilities.cpp) and cs_spfree2, on a REAL MatrixSparse object built
-// by MatrixSparse(const cs*) from a compressed VF_M x VF_N matrix with exactly NZ triplet entries at arbitrary
-// positions (duplicates allowed: the cell value is their sum).
+// by MatrixSparse(const cs*) from a compressed VF_M x VF_N matrix with exactly NZ entries at arbitrary pairwise distinct
+// positions (every sparsity pattern with NZ non-zero cells, in every storage order of the triplets).
 // Definition (include/Matrix/AMatrix.hpp "Multiply a Matrix row-wise" / "column-wise"; the dense classes agree, C11.a):
 //   multiplyRow   : R(i,j) = vec[i] * M(i,j),  vec.size() == nrows
 //   multiplyColumn: R(i,j) = vec[j] * M(i,j),  vec.size() == ncols
 //   divideRow / divideColumn: M(i,j) / vec[.]  (vec entries non-zero integers)
-// vec is an arbitrary integer-valued vector for NZ <= VF_NZSYM (bilinear terms value*vec) and the fixed vector (2,-4,8)
-// beyond (as the x of cs_gaxpy in C11.d).
-// compared cell by cell with the dense definition D(i,j) = sum of the triplet values at (i,j), read both through the
+// The result is compared cell by cell with the dense definition D(i,j) = the triplet value at (i,j) or 0, read both through the
 // public MatrixSparse::getValue and through an independent reading of the compressed-column arrays.  'vec' is allocated
 // at exactly its documented length (any read beyond it is an out-of-bounds obligation of the executor).
+// vec is an arbitrary integer-valued vector for NZ <= VF_NZSYM (default 3: always) and the fixed vector (2,-4,8) beyond.
 #include "vf.h"
 #include "Matrix/MatrixSparse.hpp"
 #include "Matrix/LinkMatrixSparse.hpp"
@@ -28,7 +27,7 @@
 #define VF_G 100
 #endif
 #ifndef VF_NZSYM
-#define VF_NZSYM 1
+#define VF_NZSYM 3
 #endif
 #ifdef VF_SOLVER
 // C library memset (the default constructor of the unused Eigen::SparseMatrix member zeroes its one-element outer index
@@ -80,11 +79,16 @@ template <int NZ, int OP> static void t_scale()
   for (int i = 0; i < M; i++)
     for (int j = 0; j < N; j++) D[i][j] = 0.;
   cs* T = cs_spalloc(M, N, NZ, 1, 1);
+  int pos[NZ + 1];
   for (int k = 0; k < NZ; k++)
   {
     int ti = vf_range(0, M - 1);
     int tj = vf_range(0, N - 1);
     double tx = vf_grid_double(VF_G);
+    // pairwise distinct cells: the constructor sums duplicates (cs_add), after which the matrix is a pattern with fewer
+    // entries, i.e. one of the other entry points; the number of stored entries is then the constant NZ (allocation sizes)
+    pos[k] = ti * N + tj;
+    for (int l = 0; l < k; l++) vf_assume(pos[l] != pos[k]);
     for (int i = 0; i < M; i++)
       for (int j = 0; j < N; j++)
         if (ti == i && tj == j) D[i][j] += tx;
@@ -106,28 +110,13 @@ template <int NZ, int OP> static void t_scale()
   cs* C = cs_triplet(T);
   MatrixSparse ms(C); // cs back-end (_flagEigen = false), own copy of C
   vf_assert_id(!ms.isFlagEigen(), "MatrixSparse(const cs*) uses the cs back-end");
-  {
-    double d0[M][N];
-    bool ok = dense_of<M, N>(ms._csMatrix, 2 * NZ, d0);
-    vf_assert_id(ok, "construction: storage is a well-formed compressed M x N matrix");
-    if (ok)
-      for (int i = 0; i < M; i++)
-        for (int j = 0; j < N; j++) vf_assert_id(d0[i][j] == D[i][j], "construction: content == sum of the triplet values per cell");
-  }
-  // The number of stored entries (duplicates were summed by the constructor) sizes the allocations of the operation:
-  // the call is made once per possible count so that these sizes are concrete on each path (same call in every branch).
-  int nstored = ms._csMatrix != nullptr ? ms._csMatrix->p[N] : -1;
-  for (int c = 0; c <= NZ; c++)
-    if (nstored == c)
-    {
-      if (OP == 0) ms.multiplyRow(vec);
-      if (OP == 1) ms.multiplyColumn(vec);
-      if (OP == 2) ms.divideRow(vec);
-      if (OP == 3) ms.divideColumn(vec);
-    }
+  if (OP == 0) ms.multiplyRow(vec);
+  if (OP == 1) ms.multiplyColumn(vec);
+  if (OP == 2) ms.divideRow(vec);
+  if (OP == 3) ms.divideColumn(vec);
   vf_assert_id(ms.getNRows() == M && ms.getNCols() == N, "shape unchanged");
   double dr[M][N];
-  bool ok = dense_of<M, N>(ms._csMatrix, 2 * NZ, dr);
+  bool ok = dense_of<M, N>(ms._csMatrix, NZ, dr);
   vf_assert_id(ok, "result storage is a well-formed compressed M x N matrix");
   for (int i = 0; i < M; i++)
     for (int j = 0; j < N; j++)
